@@ -90,6 +90,24 @@ def _integrate_pe(chk, src, n_cores, grid=3):
     return members, labels, calls, pools
 
 
+def _memo_store(f, attr, lineno):
+    """the statement at `lineno` is `self.<attr>[K] = <value>.copy()` and the function answers `return self.<attr>[K].copy()` for
+    the same key expression K (whatever the key and the value are called)"""
+    def slot(t):
+        return isinstance(t, ast.Subscript) and isinstance(t.value, ast.Attribute) and t.value.attr == attr \
+            and isinstance(t.value.value, ast.Name) and t.value.value.id == "self"
+
+    def copied(v):
+        return isinstance(v, ast.Call) and isinstance(v.func, ast.Attribute) and v.func.attr == "copy" and not v.args
+
+    keys = [ast.unparse(n.targets[0].slice) for n in ast.walk(f.node)
+            if isinstance(n, ast.Assign) and n.lineno == lineno and len(n.targets) == 1 and slot(n.targets[0]) and copied(n.value)]
+    if not keys:
+        return False
+    answered = [ast.unparse(v.func.value.slice) for v in E.return_exprs(f.node) if copied(v) and slot(v.func.value)]
+    return keys[0] in answered
+
+
 def run(chk):
     src = load()
     chk.rule_text = "ordered, position-indexed collection; pure workers; recipe identity covers all fields; no target-list reads in parts; no loop-carried state"
@@ -155,9 +173,7 @@ def run(chk):
         # memoisation idiom: `self.X[key] = value.copy()` in a function that also answers `return self.X[key].copy()` for the same key:
         # the stored value is a function of the key (completeness of the key and copy-on-read/write are decided under C17), so the
         # cache content cannot change a result whatever the schedule
-        ftxt = " ".join(ast.unparse(f.node).split())
-        sw = [(attr, text, ln) for attr, text, ln in sw
-              if not (text.startswith(f"self.{attr}[key] = ") and text.rstrip().endswith(".copy()") and f"return self.{attr}[key].copy()" in ftxt)]
+        sw = [(attr, text, ln) for attr, text, ln in sw if not _memo_store(f, attr, ln)]
         for attr, text, ln in sw:
             chk.fail("worker-writes-no-shared-state", q, f"reachable from the integration worker and writes object state self.{attr}: `{text}` - "
                      f"state kept in a worker process differs from the sequential run", where=f"{f.module.relpath}:{ln}", instance=f"self.{attr}")
